@@ -267,12 +267,20 @@ def run(ctx: Ctx):
     where_dist = {}
     if hb:
         run_kv(ctx, hb, env, rng.fork("kv"), quick, stats, where_dist)
+        run_malformed(ctx, hb, env, rng.fork("malformed"), quick, stats)
         run_boundary(ctx, hb, env)
     if hj:
         run_json(ctx, hj, env, rng.fork("json"), quick, stats)
     ctx.extra["input_distribution"] = {"counts": stats, "crash_points": where_dist}
     ctx.extra["repo_tree_sha"] = ctx.repo_tree_sha(ANCHOR_FILES)
-    ctx.extra["not_proved"] = []
+    ctx.extra["not_proved"] = [
+        "power loss (un-fsynced data lost or reordered) is outside the process-crash model of the statement",
+        "more than snapCountMax = 10^7 live keys: compactLocked writes such a snapshot but load() throws 'Unreasonable entry count' on it; explicit hypothesis "
+        "(StepOK) of D3/D4/M4, evident from the source, not reproduced (needs 10^7 keys)",
+        "JSON file store: the document text is opaque bytes (Json::dump / parse round trip is C13); the theorem is about which bytes the store file holds",
+        "a batch with a repeated key (impossible through the API: setBatch takes a map) is excluded by hypothesis Op.Distinct",
+        "observation (not a clause of C11): kMaxPlausibleEpochMs (year ~2300) exceeds what system_clock::time_point can hold (year 2262): a crafted or corrupted log "
+        "with a valid CRC and an expiry in between makes fromEpochMs overflow (UB) in load(); not producible by the API"]
     ctx.assumptions += [
         "process-crash model (DESIGN §6.5): what reached the operating system survives, rename(2) is atomic, no power-loss reordering; fsync is not part of the property",
         "ofstream buffering is observed, not assumed: crash images are built from the write/writev/fopen/rename/truncate calls the real code issued, cut at byte positions inside every write",
@@ -431,6 +439,119 @@ def run_kv(ctx, hb, env, rng, quick, stats, where_dist):
                           {"broken": {"correspondence": "load on crash images (harness/c11_kv.cpp vs Model/KvLog.lean openStore)",
                                       "detail": "first differing op index %d" % i}, "ops": c["ops"], "observed": impl, "expected_by_model": model},
                           found_input=False)
+
+
+# ------------------------------------------------------------------ malformed / foreign directories: load() byte by byte
+def crc_rec(body):
+    import zlib
+    crc = zlib.crc32(body) & 0xFFFFFFFF if body else 0
+    return (len(body) + 4).to_bytes(4, "little") + body + crc.to_bytes(4, "little")
+
+
+def snap_bytes(ents, version=2, magic=0xB1A2C3D4, count=None):
+    b = magic.to_bytes(4, "little") + version.to_bytes(4, "little") + (len(ents) if count is None else count).to_bytes(4, "little")
+    for k, v, e in ents:
+        b += len(k).to_bytes(4, "little") + k
+        if version == 2:
+            b += ((K.SENTINEL if e is None else e) % (1 << 64)).to_bytes(8, "little")
+        b += len(v).to_bytes(4, "little") + v
+    return b
+
+
+def gen_malformed(rng, n):
+    """Directories that no crash of this code produces: CRC-valid records of odd shapes, mutated logs, v1 and corrupt snapshots.
+    Only the tie is checked on them (real load() vs the model's), not admissibility."""
+    cases = []
+    keys = [b"k", b"ab", b"\x00\xff", b"key-3"]
+    for i in range(n):
+        now = rng.choice([1000, 5000, 1700000000000])
+        recs = []
+        for _ in range(rng.range(1, 6)):
+            k = rng.choice(keys)
+            v = rng.bytes(rng.range(0, 6))
+            # (expiries in (9223372036854, kMaxPlausibleEpochMs] pass isPlausibleEpochMs but overflow fromEpochMs' ns arithmetic: UB on a crafted file,
+            #  not producible by the API; kept out of the generator and recorded as an observation)
+            e = rng.choice([now + 1, now - 1, now, now + 100000, 1, 0, -1, K.SENTINEL, 9223372036854, 10413792000001, 2 ** 62, -(2 ** 62)])
+            kind = rng.below(14)
+            kl = len(k).to_bytes(4, "little")
+            vl = len(v).to_bytes(4, "little")
+            e8 = (e % (1 << 64)).to_bytes(8, "little")
+            if kind == 0:
+                body = b"S" + kl + k + vl + v
+            elif kind == 1:
+                body = b"E" + kl + k + e8 + vl + v
+            elif kind == 2:
+                body = b"X" + kl + k + e8
+            elif kind == 3:
+                body = b"D" + kl + k
+            elif kind == 4:
+                body = b"S" + kl + k + vl + v + rng.bytes(rng.range(1, 5))            # trailing bytes before the CRC
+            elif kind == 5:
+                body = b"D" + (len(k) + rng.range(1, 4)).to_bytes(4, "little") + k           # key length runs into the CRC
+            elif kind == 6:
+                body = rng.choice([b"Q", b"s", b"\x00"]) + kl + k + vl + v                 # unknown op letter
+            elif kind == 7:
+                body = b"S" + (0).to_bytes(4, "little") + vl + v                          # zero key length
+            elif kind == 8:
+                body = b"S" + kl + k + (len(v) + rng.range(1, 9)).to_bytes(4, "little") + v  # value length overruns
+            elif kind == 9:
+                body = b"X" + kl + k + e8[:rng.range(0, 7)]                               # short expiry
+            elif kind == 10:
+                body = b"E" + kl + k + e8 + (len(v) + 1).to_bytes(4, "little") + v
+            elif kind == 11:
+                body = b"S" + (70000).to_bytes(4, "little") + k + vl + v                   # key length above the bound
+            elif kind == 12:
+                body = b"E" + kl + k + e8 + vl + v + rng.bytes(2)
+            else:
+                body = b"X" + kl + k + e8 + rng.bytes(rng.range(1, 3))
+            r = crc_rec(body)
+            m = rng.below(12)
+            if m == 0:
+                r = r[:-1] + bytes([r[-1] ^ 1])                                            # CRC mismatch
+            elif m == 1:
+                r = (rng.choice([0, 5, 9, 104923157, 2 ** 31, 2 ** 32 - 1])).to_bytes(4, "little") + r[4:]   # bad length prefix
+            elif m == 2 and len(r) > 6:
+                j = rng.below(len(r))
+                r = r[:j] + bytes([r[j] ^ (1 << rng.below(8))]) + r[j + 1:]
+            recs.append(r)
+        log = b"".join(recs)
+        if rng.chance(1, 4):
+            log = log[:rng.below(len(log) + 1)]
+        if rng.chance(1, 10):
+            log += rng.bytes(rng.range(1, 9))
+        snap = "none"
+        s = rng.below(10)
+        ents = [(rng.choice(keys), rng.bytes(rng.range(0, 4)), rng.choice([None, now + 5, now - 5, 0, -3, 10413792000001])) for _ in range(rng.range(0, 4))]
+        if s < 3:
+            snap = hexs(snap_bytes(ents))
+        elif s == 3:
+            snap = hexs(snap_bytes(ents, version=1))
+        elif s == 4:
+            b = snap_bytes(ents, version=rng.choice([0, 1, 2, 3]), magic=rng.choice([0xB1A2C3D4, 0xB1A2C3D5]), count=rng.choice([None, len(ents) + 1, 10000001, 0]))
+            snap = hexs(b[:rng.below(len(b) + 1)] if rng.chance(1, 2) else b + rng.bytes(rng.range(0, 3)))
+        elif s == 5:
+            ents2 = ents + [(b"", b"x", None)]                                            # zero-length key in a snapshot
+            snap = hexs(snap_bytes(ents2))
+        cases.append({"cat": "malformed", "ops": ["crashimg 2 10000000 1 %d %s %s %s" % (now, snap, hexs(log) if rng.chance(9, 10) else "none",
+                                                                                 rng.choice(["none", "00", "-"])), "state"]})
+    return cases
+
+
+def run_malformed(ctx, hb, env, rng, quick, stats):
+    cases = gen_malformed(rng, 400 if quick else 8000)
+    res = ctx.lockstep("kv", hb, cases, impl_env=env, timeout=3000)
+    nontriv = 0
+    for c, impl, model in res:
+        stats["malformed_images"] = stats.get("malformed_images", 0) + 1
+        ctx.count_case(c["ops"][0], nontrivial=impl[0].startswith("ok") and impl[1] != "kv=- exp=-")
+        if any(l.startswith("crash:") or l.startswith("throw") for l in impl):
+            ctx.violation("property", "D3: load() crashes on a directory image: %s" % impl[0][:100], {"ops": c["ops"], "observed": impl}, found_input=True)
+            continue
+        if [K.canon_line(a) for a in impl] != [K.canon_line(b) for b in model]:
+            ctx.violation("correspondence", "the real load() and the model disagree on a malformed directory image: impl=`%s | %s` model=`%s | %s`"
+                          % (impl[0][:60], K.short(impl[1], 120), model[0][:60], K.short(model[1], 120)),
+                          {"broken": {"correspondence": "load on malformed images (harness/c11_kv.cpp vs Model/KvLog.lean parseBuf/loadSnap/replayLoop)",
+                                      "detail": "malformed-image generator"}, "ops": c["ops"], "observed": impl, "expected_by_model": model}, found_input=False)
 
 
 def run_boundary(ctx, hb, env):
